@@ -586,7 +586,7 @@ func checkC06(c *hx.Checker) {
 			}
 		}
 		// larger geometries beyond the exhaustive box
-		for _, g := range [][4]int{{12, 4, 5, 9}, {20, 1, 3, 16}, {2, 7, 11, 4}, {5, 3, 37, 35}, {3, 17, 5, 67}, {41, 2, 3, 3}} {
+		for _, g := range [][4]int{{12, 4, 5, 9}, {20, 1, 3, 16}, {2, 7, 11, 4}, {5, 3, 37, 35}, {3, 17, 5, 67}, {41, 2, 3, 3}, {2, 19, 24, 32}, {2, 36, 64, 16}} {
 			v := recCfg{Op: op, DT: "float32", S: g[0], B: g[1], I: g[2], H: g[3], HasB: true, HasH0: true, HasC0: op == "LSTM", HasP: op == "LSTM", Route: "op"}
 			jl := v.job()
 			jl.tags = append(jl.tags, "large")
